@@ -1,0 +1,75 @@
+//! Verification hooks: an in-process transport.
+//!
+//! A [crate::Server] created with `Server::verif_local(addr)` is registered here
+//! under its address; a [crate::Channel] connected to that address hands its
+//! requests straight to the server's connection handler instead of opening an OS
+//! socket. Everything above the socket (message encoding, checksums, dispatch,
+//! handlers, status replies) is the normal code path.
+
+use std::collections::HashMap;
+use std::io;
+use std::net::SocketAddr;
+use std::sync::Mutex;
+
+use http::{Request, Response};
+
+use crate::net::Error;
+use crate::server::ServerState;
+
+struct LocalServer {
+    state: ServerState,
+    link_up: bool,
+}
+
+static LOCAL_SERVERS: Mutex<Option<HashMap<SocketAddr, LocalServer>>> = Mutex::new(None);
+
+pub(crate) fn register_local_server(addr: SocketAddr, state: ServerState) {
+    let mut lock = LOCAL_SERVERS.lock().unwrap();
+    lock.get_or_insert_with(HashMap::new).insert(
+        addr,
+        LocalServer {
+            state,
+            link_up: true,
+        },
+    );
+}
+
+/// Removes the in-process server registered under `addr`.
+pub fn unregister_local_server(addr: SocketAddr) {
+    let mut lock = LOCAL_SERVERS.lock().unwrap();
+    if let Some(servers) = lock.as_mut() {
+        servers.remove(&addr);
+    }
+}
+
+/// Marks the link to the in-process server at `addr` as up or down.
+///
+/// While a link is down every request to that address fails with a connection error.
+pub fn set_link_up(addr: SocketAddr, up: bool) {
+    let mut lock = LOCAL_SERVERS.lock().unwrap();
+    if let Some(server) = lock.as_mut().and_then(|servers| servers.get_mut(&addr)) {
+        server.link_up = up;
+    }
+}
+
+pub(crate) async fn try_local_dispatch(
+    addr: SocketAddr,
+    request: &mut Request<hyper::Body>,
+) -> Option<Result<Response<hyper::Body>, Error>> {
+    let state = {
+        let lock = LOCAL_SERVERS.lock().unwrap();
+        let server = lock.as_ref()?.get(&addr)?;
+        if !server.link_up {
+            return Some(Err(Error::Io(io::Error::new(
+                io::ErrorKind::ConnectionRefused,
+                "verif: link is down",
+            ))));
+        }
+        server.state.clone()
+    };
+
+    let request = std::mem::take(request);
+    let client_addr = SocketAddr::from(([127, 0, 0, 1], 1));
+    let resp = crate::net::verif_handle_connection(request, state, client_addr).await;
+    Some(Ok(resp.unwrap()))
+}
